@@ -205,6 +205,13 @@ STATEMENTS = [
     ("select a from t1 sample (50) seed (7)", None, "pyformat", True),
     ("merge into t1 using t2 on t1.a = t2.a when matched then update set b = 'm' when not matched then insert (a) values (t2.a)", None, "pyformat", True),
     ("call my_proc(1)", None, "pyformat", False),  # no-op'd by nop_regexes
+    # statements whose engine SQL reads differently in another dialect: the DESCRIBE must be about exactly the SQL that ran
+    ("select a, 'C:\\\\' as p, 'it''s' as q from t1", None, "pyformat", True),
+    ("select a from t1 where b = %s or b = %s", ("C:\\", "a\\'b"), "pyformat", True),
+    ("select datediff(day, '2020-01-01'::date, '2020-03-01'::date), a from t1", None, "pyformat", True),
+    ("select regexp_replace(b, 'x+', 'y'), regexp_substr(b, 'x') from t1", None, "pyformat", True),
+    ("select array_agg(a) within group (order by a desc) as aa, array_contains(1::variant, array_construct(1, 2)) as ac from t1", None, "pyformat", True),
+    ("select b:k.j::varchar, to_timestamp_ntz(a), a::number(10,2) from t1", None, "pyformat", True),
 ]
 
 
@@ -216,6 +223,18 @@ def _conn(style: str, eng):
         return fs.connect(database="db1", schema="s1")
     finally:
         snowflake.connector.paramstyle = saved
+
+
+def _describes_what_ran(cur, describe_sql: str) -> bool:
+    """The DESCRIBE sent to the engine is 'DESCRIBE <the engine SQL of the last statement>' (read as the engine reads it), nothing re-interpreted."""
+    import sqlglot
+
+    last = getattr(cur, "_last_sql", None)
+    if not last:
+        return True
+    want = sqlglot.parse_one(f"DESCRIBE {last}", read="duckdb").sql(dialect="duckdb")
+    got = sqlglot.parse_one(describe_sql, read="duckdb").sql(dialect="duckdb")
+    return want == got
 
 
 def _describe_after(si: int, as_dict: bool, ncols: int) -> bool:
@@ -236,6 +255,8 @@ def _describe_after(si: int, as_dict: bool, ncols: int) -> bool:
     for _cid, q in new:
         if not q.lstrip().upper().startswith("DESCRIBE"):
             return False
+    if not _describes_what_ran(cur, new[0][1]):
+        return False
     rows = cur.fetchall()
     after = (cur.rowcount, cur.sqlstate, conn.database, conn.schema, dict(conn.variables._variables) if hasattr(conn.variables, "_variables") else None)
     if before != after:
@@ -256,9 +277,10 @@ def _describe_after(si: int, as_dict: bool, ncols: int) -> bool:
 @ob(
     "C06.description_after_every_statement_kind",
     encodes=["fakesnow.cursor.FakeSnowflakeCursor.execute/_execute", "FakeSnowflakeCursor.description/_describe_last_sql", "fakesnow.types.describe_as_result_metadata"],
-    bounds="33 statements: queries (plain, pyformat and qmark parameters, seeded RANDOM/SAMPLE), INSERT/UPDATE/DELETE/MERGE, CREATE/ALTER/DROP "
+    bounds="39 statements: queries (plain, pyformat and qmark parameters, seeded RANDOM/SAMPLE, literals and bound text ending in a backslash or holding quotes, DATEDIFF / REGEXP_* / ARRAY_AGG WITHIN GROUP / JSON paths / casts whose engine SQL reads differently in other dialects), INSERT/UPDATE/DELETE/MERGE, CREATE/ALTER/DROP "
     "TABLE|VIEW|SCHEMA|DATABASE incl. COMMENT, tag and cluster no-ops, USE DATABASE/SCHEMA, BEGIN/COMMIT/ROLLBACK, SET, TRUNCATE, SHOW "
-    "TABLES/SCHEMAS/OBJECTS, DESCRIBE TABLE, a nop_regexes match x tuple/dict cursor x 1..3 result columns (repeated names for tuples)",
+    "TABLES/SCHEMAS/OBJECTS, DESCRIBE TABLE, a nop_regexes match x tuple/dict cursor x 1..3 result columns (repeated names for tuples); the DESCRIBE "
+    "reaching the engine is about exactly the engine SQL of the statement",
     timeout=(300, 600),
     stubs=["K1/K2/K6 vf.duckstub.Engine"],
     shards=(11, 11),
